@@ -423,9 +423,13 @@ def gen_base(r, cfg):
             v = node_only_value(r, sp, s)
         emit({"op": "set_value", "p": p, "v": v})
     # guesses
+    gp = [q for q in sp.names("parameter") if sp.sym(q).get("grid", "") == "" and sp.sym(q).get("rows", 1) * sp.sym(q).get("cols", 1) == 1]
     for tg, s in guess_targets(sp):
         if r.random() < cfg.get("p_base_guess", 0.3):
-            emit({"op": "set_initial", "x": tg, "g": gen_guess(r, tg, s, N, cfg)})
+            g = gen_guess(r, tg, s, N, cfg)
+            if gp and s is not None and s["kind"] in ("state", "control") and s.get("rows", 1) * s.get("cols", 1) == 1 and r.random() < cfg.get("p_param_guess", 0.2):
+                g = ["expr", ["*", ["s", pick(r, gp)], gen_time_expr(r)]]  # a guess that mentions a parameter
+            emit({"op": "set_initial", "x": tg, "g": g})
     return ops, sp
 
 
